@@ -630,6 +630,17 @@ void vf_case(Ctx& ctx, uint64_t i) {
     (p.size() == 1 ? n1 : p.size() == 2 ? n2 : n3)++;
     P.push_back(p);
   }
+  // chained pieces: a polyline given as two consecutive paths that share the split vertex (the second path starts exactly
+  // where the first one ends), or a 1-point path sitting on the previous path's last vertex - ordinary ways to hand
+  // over a polyline in pieces; the stroke of the call is the union of the pieces' strokes
+  if (r.chance(0.12)) {
+    for (size_t k = 0; k < P.size(); ++k) if (P[k].size() >= 3) {
+      size_t sp = (size_t)r.irange(1, (int)P[k].size() - 2);
+      Path64 a(P[k].begin(), P[k].begin() + (long)sp + 1), b(P[k].begin() + (long)sp, P[k].end());
+      if (et == ET_JOINED && (a.size() < 2 || b.size() < 2)) break;
+      P[k] = a; P.insert(P.begin() + (long)k + 1, b); ctx.count("calls_with_chained_pieces"); break;
+    }
+  } else if (r.chance(0.05) && !P.empty() && !P[0].empty()) { P.insert(P.begin() + 1, Path64{ P[0].back() }); ctx.count("calls_with_point_on_previous_end"); }
   if (szi <= 5 && r.chance(0.2)) {
     int64_t room = ((int64_t)1 << 40);
     gen::translate(P, r.range(-room, room), r.range(-room, room));
